@@ -70,7 +70,7 @@ fn list_graph(n: usize) -> Vec<[ST; 3]> {
     g
 }
 
-pub const OPS: [&str; 56] = [
+pub const OPS: [&str; 60] = [
     "fast-ds-match-all", "fast-ds-match-g", "fast-ds-match-gs", "fast-ds-match-o", "fast-ds-match-po", "fast-ds-match-closure", "light-ds-match-closure", "light-ds-match-g", "light-ds-match-o",
     "fast-g-match-closure", "fast-g-match-s", "fast-g-match-o", "light-g-match-closure", "light-g-match-s",
     "fast-ds-insert-remove", "light-ds-insert-remove", "fast-g-insert-remove",
@@ -80,6 +80,8 @@ pub const OPS: [&str; 56] = [
     "nt-parse-comments", "nq-parse-blank-lines", "turtle-parse-prefixes", "trig-parse-prefixes", "xml-parse-comments", "gtrig-parse-prefixes",
     "source-filter-iter", "source-filter-map-iter", "source-map-iter", "parser-filter-map-iter", "sparql-bgp-join", "sparql-bgp-join3",
     "sparql-graph-var", "sparql-bgp-filter", "sparql-order-by", "sparql-distinct-union", "c14n-doc", "iso-doc",
+    // one subject (in one graph) carrying every statement
+    "turtle-pretty-ser-hub", "trig-pretty-ser-hub", "xml-ser-hub", "jsonld-ser-hub",
 ];
 
 /// one operation at one size: Ok(number of results) or Err(error value) - both are fine for C16; only the stack matters
@@ -174,9 +176,15 @@ fn run_op(op: &str, n: usize) -> (Result<usize, String>, usize) {
                 })
             })
         }
-        "nt-ser-doc" | "nq-ser-doc" | "turtle-ser-doc" | "turtle-pretty-ser-doc" | "trig-pretty-ser-doc" | "xml-ser-doc" | "jsonld-ser-doc" | "jsonld-ser-graphs" | "trig-pretty-ser-graphs" => {
+        "nt-ser-doc" | "nq-ser-doc" | "turtle-ser-doc" | "turtle-pretty-ser-doc" | "trig-pretty-ser-doc" | "xml-ser-doc" | "jsonld-ser-doc" | "jsonld-ser-graphs" | "trig-pretty-ser-graphs"
+        | "turtle-pretty-ser-hub" | "trig-pretty-ser-hub" | "xml-ser-hub" | "jsonld-ser-hub" => {
             let many_graphs = op.ends_with("graphs");
-            let qs: Vec<([ST; 3], Option<ST>)> = quads(n, many_graphs).into_iter().enumerate().map(|(i, q)| if many_graphs { q } else { (q.0, if i % 3 == 0 { Some(ex("g", i % 5)) } else { None }) }).collect();
+            let hub = op.ends_with("hub");
+            let qs: Vec<([ST; 3], Option<ST>)> = if hub {
+                (0..n).map(|i| ([ex("hub", 0), ex("p", i % 3), ex("o", i)], if op.starts_with("trig") { Some(ex("g", 0)) } else { None })).collect()
+            } else {
+                quads(n, many_graphs).into_iter().enumerate().map(|(i, q)| if many_graphs { q } else { (q.0, if i % 3 == 0 { Some(ex("g", i % 5)) } else { None }) }).collect()
+            };
             let op = op.to_string();
             measured(move || {
                 let ts = qs.iter().map(|q| Ok::<_, std::convert::Infallible>(q.0.clone()));
@@ -185,17 +193,17 @@ fn run_op(op: &str, n: usize) -> (Result<usize, String>, usize) {
                     "nt-ser-doc" => sophia_turtle::serializer::nt::NtSerializer::new_stringifier().serialize_triples(ts).map_err(|e| e.to_string())?.as_utf8().len(),
                     "nq-ser-doc" => sophia_turtle::serializer::nq::NqSerializer::new_stringifier().serialize_quads(qsrc).map_err(|e| e.to_string())?.as_utf8().len(),
                     "turtle-ser-doc" => sophia_turtle::serializer::turtle::TurtleSerializer::new_stringifier().serialize_triples(ts).map_err(|e| e.to_string())?.as_utf8().len(),
-                    "turtle-pretty-ser-doc" => sophia_turtle::serializer::turtle::TurtleSerializer::new_stringifier_with_config(sophia_turtle::serializer::turtle::TurtleConfig::new().with_pretty(true))
+                    "turtle-pretty-ser-doc" | "turtle-pretty-ser-hub" => sophia_turtle::serializer::turtle::TurtleSerializer::new_stringifier_with_config(sophia_turtle::serializer::turtle::TurtleConfig::new().with_pretty(true))
                         .serialize_triples(ts)
                         .map_err(|e| e.to_string())?
                         .as_utf8()
                         .len(),
-                    "trig-pretty-ser-doc" | "trig-pretty-ser-graphs" => sophia_turtle::serializer::trig::TrigSerializer::new_stringifier_with_config(sophia_turtle::serializer::trig::TrigConfig::new().with_pretty(true))
+                    "trig-pretty-ser-doc" | "trig-pretty-ser-graphs" | "trig-pretty-ser-hub" => sophia_turtle::serializer::trig::TrigSerializer::new_stringifier_with_config(sophia_turtle::serializer::trig::TrigConfig::new().with_pretty(true))
                         .serialize_quads(qsrc)
                         .map_err(|e| e.to_string())?
                         .as_utf8()
                         .len(),
-                    "xml-ser-doc" => sophia_xml::serializer::RdfXmlSerializer::new_stringifier().serialize_triples(ts).map_err(|e| e.to_string())?.as_utf8().len(),
+                    "xml-ser-doc" | "xml-ser-hub" => sophia_xml::serializer::RdfXmlSerializer::new_stringifier().serialize_triples(ts).map_err(|e| e.to_string())?.as_utf8().len(),
                     _ => sophia_jsonld::JsonLdSerializer::new_stringifier().serialize_quads(qsrc).map_err(|e| e.to_string())?.as_utf8().len(),
                 })
             })
@@ -374,7 +382,7 @@ fn is_last_s(last: usize) -> impl Fn(SimpleTerm) -> bool {
 fn describe_idx(idx: usize, sizes: &[usize]) -> (String, usize) {
     let op = OPS[idx / sizes.len()];
     let n = sizes[idx % sizes.len()];
-    let slow = op.contains("pretty-ser-doc") || op.contains("pretty-ser-list") || op.contains("pretty-ser-graphs") || op == "sparql-graph-var" || op.starts_with("sparql-bgp-join");
+    let slow = op.contains("pretty-ser-doc") || op.contains("pretty-ser-list") || op.contains("pretty-ser-graphs") || op.contains("pretty-ser-hub") || op == "sparql-graph-var" || op.starts_with("sparql-bgp-join");
     // (capped: 2,000 elements already take them tens of seconds in a dev build)
     (op.to_string(), if slow { (n / 10).clamp(50, 2000) } else { n })
 }
